@@ -241,7 +241,7 @@ type c13Case struct {
 	Concurrent *c13ConcRound `json:"concurrent,omitempty"`
 	// RxPattern, when present: the auxiliary structural @rx monitor fired for this pattern.
 	RxPattern string `json:"rx_pattern,omitempty"`
-	Text    string          `json:"readable,omitempty"`
+	Text      string `json:"readable,omitempty"`
 	// Expect, when present, holds per-configuration outcomes observed in another build flavour
 	// (plain-vs-nomemo differential): the replay compares against them instead of the in-process reference.
 	Expect map[int][]c13Out `json:"expect,omitempty"`
